@@ -189,13 +189,23 @@ type divState struct {
 	phantomSite map[string]string
 	// account subject -> site at which a phantom cache entry for it was left
 	subjRoot map[string]string
+	// (scope, account, branch) -> site of a rolled-back eager extension whose
+	// index is still ahead in memory.  It may show only later: while the
+	// account exists in memory alone the key counts cannot be compared; they
+	// can once a committed NewAccount reuses the number.  Dropped as soon as
+	// both managers report the same count for the branch.
+	extRolled map[string]string
 }
 
 func newDivState() divState {
-	return divState{cur: map[string]string{}, phantomSite: map[string]string{}, subjRoot: map[string]string{}}
+	return divState{cur: map[string]string{}, phantomSite: map[string]string{}, subjRoot: map[string]string{},
+		extRolled: map[string]string{}}
 }
 
 func acctSubject(sc int, a uint32) string { return fmt.Sprintf("%d:acct:%d", sc, a) }
+func branchSubject(sc int, a uint32, internal bool) string {
+	return fmt.Sprintf("%d:acct:%d:%v", sc, a, internal)
+}
 func addrSubject(sc int, ref []uint32) string {
 	return fmt.Sprintf("%d:addr:%v", sc, ref)
 }
@@ -349,11 +359,25 @@ func (rn *runner) explain(kind, part string, q op, t *txIn, outs []answer) strin
 				}
 			}
 		}
+		// the index an EARLIER rolled-back extension left ahead in memory
+		internal := q.Int
+		if kind == "next_index" {
+			internal = part == "int"
+		}
+		if s, ok := rn.div.extRolled[branchSubject(sc, q.Acct, internal)]; ok {
+			return s
+		}
 	case "phantom_address", "phantom_imported_address":
 		if s, ok := rn.div.phantomSite[addrSubject(sc, q.Addr)]; ok {
 			return s
 		}
 	case "account_existence", "account_kind", "account_watch_only":
+		if kind == "account_watch_only" && aborted {
+			// the manager marked itself watching-only before the conversion committed
+			if i := last(func(_ int, o op) bool { return o.K == "convert" }); i >= 0 {
+				return eq(i, "ConvertToWatchingOnly") + end
+			}
+		}
 		if aborted {
 			if i := last(func(i int, o op) bool {
 				return (o.K == "newacct" || o.K == "newacctwo") && o.Sc == sc && outs[i].K == "acct" && outs[i].Acct == q.Acct
@@ -433,11 +457,19 @@ func (rn *runner) explain(kind, part string, q op, t *txIn, outs []answer) strin
 			break
 		}
 	}
-	// a later symptom on an account whose cache entry is a phantom
+	// a later symptom on an account whose cache entry is a phantom (for an
+	// address: one of that account, which only the phantom entry lets the
+	// running manager build)
 	switch q.K {
 	case "props", "last":
 		if s, ok := rn.div.subjRoot[acctSubject(sc, q.Acct)]; ok {
 			return "after:" + s
+		}
+	case "lookup":
+		if len(q.Addr) == 4 && q.Addr[0] == 0 {
+			if s, ok := rn.div.subjRoot[acctSubject(sc, q.Addr[1])]; ok {
+				return "after:" + s
+			}
 		}
 	}
 	return "unexplained:" + strings.TrimPrefix(end, "/") + ":" + describeTx(t, outs)
@@ -476,6 +508,9 @@ func (rn *runner) notePhantoms(t *txIn, outs []answer) {
 			}
 		case o.K == "extend" && outs[i].K == "ok":
 			b := branchOf(o)
+			if extendEager {
+				rn.div.extRolled[branchSubject(o.Sc, o.Acct, o.Int)] = "ExtendAddresses=ok/rolled-back"
+			}
 			for idx := uint32(0); idx <= o.N && idx < maxIdx; idx++ {
 				ref := []uint32{0, o.Acct, b, idx}
 				if extendEager {
@@ -496,6 +531,16 @@ func (rn *runner) notePhantoms(t *txIn, outs []answer) {
 func (rn *runner) record(out *caseOut, txi int, t *txIn, outs []answer, qas []qa) {
 	now := map[string]string{}
 	for _, e := range qas {
+		// both managers report the key counts of the account: a branch on which
+		// they agree has nothing left over from a rolled-back extension
+		if f := e.F; e.Q.K == "props" && e.R.K == "props" && (f == nil || f.K == "props") {
+			if f == nil || f.Ext == e.R.Ext {
+				delete(rn.div.extRolled, branchSubject(e.Q.Sc, e.Q.Acct, false))
+			}
+			if f == nil || f.IntN == e.R.IntN {
+				delete(rn.div.extRolled, branchSubject(e.Q.Sc, e.Q.Acct, true))
+			}
+		}
 		if e.F == nil {
 			continue
 		}
@@ -590,7 +635,7 @@ func txInK(t txIn) bool {
 			}
 		}
 		switch o.K {
-		case "setsynced", "setsyncednil", "setbirthday", "impkey", "impscript":
+		case "setsynced", "setsyncednil", "setbirthday", "impkey", "impscript", "convert":
 			return true
 		case "rename":
 			if renameEager {
